@@ -736,8 +736,15 @@ def build_shared(R, m, owner, share=0.5, kinds=('$', '><'), style=None, feats=No
                 handled.add(tuple(sorted((x, v))))
             lab = next(labels)
             desc[F][vp].append('[!%s]' % lab)
-            desc[G][v].append('[!%s]' % lab)
-            bump(F, G)
+            # the partner is the home atom or - the sharing relation may be any tree over the fragments that
+            # hold the atom - one of its earlier copies
+            earlier = [(vq, Fq) for (vv, Fq), vq in copies.items() if vv == v and Fq != F]
+            pa, PF = (v, G)
+            if earlier and R.random() < 0.5:
+                pa, PF = R.choice(earlier)
+                feats.add('shared_atom_paired_with_an_earlier_copy')
+            desc[PF][pa].append('[!%s]' % lab)
+            bump(F, PF)
             nshared += 1
             shared_home[v] += 1
             if m.atoms[v]['aromatic']:
